@@ -133,7 +133,8 @@ func runThresholds(f lib.Flags, res *lib.Result, r *lib.RNG, drv *lib.Driver, on
 			// (the signature of the defect repaired by 487454a is kept apart so that its return is
 			// recognisable: the product 2N wrapped for N >= 2^63)
 			sig := "quorum-thresholds-do-not-intersect"
-			if n >= 1<<63 {
+			if d := n * 2; n >= 1<<63 && (rq == d/3 || rq == d/3+1) {
+				// exactly the repaired defect: q computed from the wrapped product 2N
 				sig = "quorum-threshold-wraps-for-total-power-ge-2^63"
 			}
 			var why []string
